@@ -23,6 +23,7 @@ type c17Case struct {
 	Source string `json:"source,omitempty"`
 	Text   string `json:"text,omitempty"`
 	Offset int    `json:"offset,omitempty"`
+	End    int    `json:"end,omitempty"`
 	Chain  []int  `json:"chain,omitempty"`
 	Msg    int    `json:"message_index,omitempty"`
 }
@@ -289,6 +290,9 @@ func c17Faults() []nodeFn {
 		func() *rt.Node { return rt.List(I(1), rt.Bin("+", I(1), rt.Nil())) },
 		func() *rt.Node { return rt.Call("len", rt.Bin("*", S("a"), I(2))) },
 		func() *rt.Node { return rt.Paren(rt.Bin("+", rt.Map(), I(1))) },
+		// data errors of builtins met at run time, at many places of many texts within one process
+		func() *rt.Node { return rt.Call("replace", Id("x"), S("(unclosed"), S("b")) },
+		func() *rt.Node { return rt.Call("replace", Id("nokey"), S("a[bc"), S("")) },
 	}
 }
 
@@ -634,7 +638,7 @@ func c17Replay(raw json.RawMessage) (bool, string) {
 		return false, "position ok: " + v.Real.Err.Error()
 	}
 	if c.Part == "load-fault" {
-		class, msg, rejected := c17LoadFaultCheck(c.Source)
+		class, msg, rejected := c17LoadFaultCheck(c.Source, c.Offset, c.End)
 		if !rejected {
 			return false, "accepted"
 		}
@@ -663,8 +667,8 @@ func init() {
 		Level: "model_checking",
 		Rule: "(A) every program of the C06 generator (all node kinds), preceded by a line containing a multi-byte rune, in base layout and with one layout insertion (LF, CRLF, bare CR, comment, semicolon, blanks) at every site: every position field of the parsed tree against the printer's token offset, line/column against an independent scan, StartPos() inside the node; " +
 			"(B) all 9841 texts of length <=8 over {a, newline, é} x every offset -1..len+1: PosCache.LnCol == LnCol == independent scan, invalid offsets rejected; " +
-			"(C) 36 run-time faults x 16 syntactic roles x 6 places (top level, if body, else inside for-in, for body, inside a used script one and two use() levels down; after a multi-line literal and a back-quoted name containing a line break): script name, 0 <= offset < len(source), offset inside the statement at fault, line/column consistent, chain = call sites; " +
-			"(E) 8 load-time faults recorded by node constructors x 10 roles x 7 preceding texts (incl. line breaks inside tokens): positioned PlError inside the source; (D) all chains of 1..4 positions over 2 file names x 3 positions x 7 message texts (format verbs, line breaks, quotes, empty): Error() rendering verbatim, JSON round trip, Copy()+ChainAppend isolation (also with spare capacity)",
+			"(C) 38 run-time faults (incl. a builtin whose literal pattern does not compile) x 16 syntactic roles x 6 places (top level, if body, else inside for-in, for body, inside a used script one and two use() levels down; after a multi-line literal and a back-quoted name containing a line break): script name, 0 <= offset < len(source), offset inside the statement at fault, line/column consistent, chain = call sites; " +
+			"(E) 14 load-time faults (8 recorded by node constructors, 6 lexical: open strings, a bad escape, an out-of-range octal, a malformed number) x 10 roles x 7 preceding texts (incl. line breaks inside tokens) x 3 following texts, each loaded together with a twin of identical text: positioned PlError naming its own script, inside the statement that holds the fault; (D) all chains of 1..4 positions over 2 file names x 3 positions x 7 message texts (format verbs, line breaks, quotes, empty): Error() rendering verbatim, JSON round trip, Copy()+ChainAppend isolation (also with spare capacity)",
 		Assumptions: []string{"load-time error positions are decided by C08 with the same offset oracle"},
 		Run:            c17Run,
 		Replay:         c17Replay,
